@@ -187,6 +187,30 @@ def run(ctx):
             ds = correspond(ctx, name, reqs)
             diffs += ds
             diff_cases += [pairs[d[0]][1] for d in ds]
+        # nothing survives between independent calls: the same request after earlier calls in the same process on related
+        # arguments (same structure with another / misaligned sequence, same sequence with another structure)
+        rng = ctx.rng
+        areqs, aimpl = [], []
+        pool_ = [c for c in small if "+" in c["sst"]]
+        for c_ in rng.sample(pool_, min(len(pool_), 300 if ctx.tier == "quick" else 3000)) + rnd[:40]:
+            seq_, s_ = list(c_["seq"]), c_["sst"]
+            plain = [x for x in seq_ if x != "+"]
+            earlier = []
+            for _ in range(2):                                    # same structure, strand break elsewhere in the sequence
+                cut = sorted(rng.sample(range(1, len(plain)), min(s_.count("+"), len(plain) - 1))) if len(plain) > 1 else []
+                mis, prev = [], 0
+                for k_ in cut + [len(plain)]:
+                    mis += plain[prev:k_] + ["+"]
+                    prev = k_
+                earlier.append([mis[:-1], list(s_)])
+            earlier.append([[x if x == "+" else "q" for x in seq_], list(s_)])     # same structure, other domains
+            other = rng.choice(pool_)
+            earlier.append([list(other["seq"]), list(other["sst"])])
+            rng.shuffle(earlier)
+            for opn in ("rotate_complex_once", "rotate_complex_db"):
+                areqs.append((opn, [seq_, list(s_)]))
+                aimpl.append(("after", [opn, earlier, [seq_, list(s_)]]))
+        diffs += correspond(ctx, "after-earlier-calls", areqs, impl_reqs=aimpl)
     ctx.cov["rule"] = ("every well-formed structure with non-empty strands up to the tier's length bound (8 quick / 10 "
                        "thorough) with generated domain content, random structures up to 60 strands / depth 100, single "
                        "strands, disconnected and rotationally symmetric complexes, each through rotate_complex_once, "
@@ -199,7 +223,8 @@ def run(ctx):
     ctx.cov["partial"] = partial_statements()
 
     def search(diffs):
-        pre = history_witnesses(diffs)
+        from corr import after_witnesses
+        pre = history_witnesses(diffs) + after_witnesses(diffs)
         cases = []
         for c in diff_cases[:4]:
             def bad(c2):
@@ -228,6 +253,12 @@ def replay(data):
     if not inp:
         print("replay file names a broken proof/correspondence link only:", json.dumps(data.get("broken_links"))[:2000])
         return 1
+    if isinstance(inp, dict) and "after" in inp:
+        from common import run_impl
+        name, earlier, args = inp["after"]
+        a, b = run_impl([(name, args)], jobs=1)[0], run_impl([("after", inp["after"])], jobs=1)[0]
+        print("first call:", a, "| after earlier calls:", b)
+        return 1 if a != b else 0
     if isinstance(inp, dict) and "history" in inp:
         from common import run_impl
         r = run_impl([("c03_fresh_compare", inp["history"])])[0]
